@@ -506,7 +506,8 @@ class C05(Check):
         dec = np.array(case['dec'], dtype='d')
         L = float(case['L'])
         n = ra.size
-        sure, maybe, nband, S = R.fof(ra, dec, L)
+        sure, maybe, nband, S = R.fof(ra, dec, L)           # separations cross-checked (chord vs Vincenty) inside
+        out.count('reference_selfchecks')
         decided = sure == maybe
         if not decided:
             out.undecide(1)
